@@ -147,6 +147,17 @@ def rule_R_GUARD_STR_KW(ctx, repo):
         own_kw = ('param', node.args.kwarg.arg) if node.args.kwarg else None
         own_va = ('param', node.args.vararg.arg) if node.args.vararg else None
         for o in outs:
+            # R-ROUND (no bypass): the rounder hands its inputs back untouched only when there is nothing in them
+            if is_main and o.kind == RETURN and own_va is not None and own_kw is not None and o.val == ('tuple', (own_va, own_kw)):
+                truth = o.st.facts.get('truth', {})
+                empty = truth.get(own_va) is False and truth.get(own_kw) is False
+                ctx.ob('R-ROUND', '%s returns its inputs untouched only when they are empty' % node.name, empty)
+                if not empty:
+                    conds = ['%s is %s' % (render(t)[:60], b) for t, b in truth.items()][:3]
+                    ctx.fail('R-ROUND', qual, 'arguments returned unrounded on a fast path',
+                             '%s returns (*args, **kwds) as they came on a path decided by %s: whatever floats that test does not recognise (instances of float '
+                             'subclasses such as numpy.float64 under an exact type() comparison, floats inside containers) keep all their digits, so calls that agree '
+                             'after rounding get different keys' % (node.name, '; '.join(conds) or 'no test at all'), '%s:%d' % (m.rel, o.line or node.lineno), render_path(o))
             # R-ROUND (oracle): wherever an argument element is established to be a float, it is rounded with builtin round(x, tol)
             for t, b in o.st.facts.get('truth', {}).items():
                 if b and t[0] == 'call' and t[1] == ('lib', 'isinstance') and len(t[2]) == 2 and class_names(t[2][1]) == ('float',):
